@@ -39,7 +39,8 @@ COQ_TARGETS = ["Model/C02_run.vo", "Proofs/C02_params.vo", "Proofs/C02_container
 TRANSLATOR_NAME = "harness/translate/c02_tables.py"
 RULE = ("signatures: exhaustive count vectors (posonly,args,vararg?,kwonly,kwarg?,#defaults,kw-default mask) with each list <=3 "
         "(quick: <=2 plus a seeded sample of <=3), x annotations on/off, rotating contexts def/async def/method/lambda default; seeded random "
-        "vectors up to 8 per list; bound views of the same vectors as instance/class/static methods; "
+        "vectors up to 8 per list; vectors <=3 with defaults drawn from 70 literal expressions of every constant type (ints, floats incl. inf/nan "
+        "spellings, complex, str, bytes, None, Ellipsis, bools, negatives, tuples and displays of them), also as lambda parameters; bound views of the same vectors as instance/class/static methods; "
         "bodies: random straight-line class/module/function bodies of decorated defs and other binders (decorators spelled several ways, "
         "stacked, nested in if/try blocks), idiomatic bodies with repeated overload groups and property blocks per name in sequence and in "
         "if/else branches; container: random operation sequences (get/set/del by name and index, in, len, iter, add) with probes after each "
@@ -48,7 +49,8 @@ RULE = ("signatures: exhaustive count vectors (posonly,args,vararg?,kwonly,kwarg
 TRUSTED = ["abstraction: harness walks ast.parse(source).args into the model's `arguments` record and maps annotation/default atoms A<k>/<k> to integers",
            "abstraction: definitions/binders of a generated body in source order with def-line ids; decorator callable paths by construction of the source",
            "translator harness/translate/c02_tables.py (whitelisted AST shapes of enumerations.py, agents/nodes/parameters.py, agents/visitor.py; fails closed)"]
-ASSUMPTIONS = ["annotation and default *expression text* is C03's subject; here they are opaque distinct atoms",
+ASSUMPTIONS = ["annotation and default *expression text* is C03's subject; in the model they are opaque distinct atoms (the literal-default stream "
+               "additionally evaluates Griffe's default text against CPython's default object, since has-default/required depend on the expression builder not failing)",
                "ast.parse yields len(kw_defaults)==len(kwonlyargs) and len(defaults)<=len(posonlyargs+args) (theorem hypothesis wf; both ill-formed branches are covered by C02_too_many_*_rejected)",
                "bodies: CPython-side agreement is stated for bodies CPython executes without error and whose definitions carry at most one role decorator "
                "(overload / property / own-name accessor), pass-through decorators being arbitrary (cpy_exec = Ok)"]
@@ -250,6 +252,167 @@ def check_signatures(ctx, vecs, label, use_model=True):
             if not use_model:
                 return True
         ctx.count("signature_cases")
+    return False
+
+
+# ---- defaults that are real literal expressions (the expression builder must not fail: has-default / required depend on it)
+LITERALS = [
+    "0", "1", "-1", "31", "0x20", "0o17", "0b101", "1_000", "1000000000000000000000", "-12345678901234567890",
+    "1.5", "-1.5", "0.0", "-0.0", "1e10", "1e-7", ".5", "5.", "1e999", "-1e999", "1_0.2_5",
+    'float("inf")', '-float("inf")', 'float("nan")', "math.inf", "-math.inf", "math.nan",
+    "1j", "-1j", "0j", "2+3j", "1-2j", "1.5j", "1e999j", "-1e999j", "2.5+1e999j", "(1+0j)",
+    "''", "'a'", '"it\'s"', "'\\n'", "'a' 'b'", "'\\u00e9'", "'\\x00'", '"""tri"""',
+    "b''", "b'x'", 'b"\\x00\\xff"', "b'a' b'b'",
+    "None", "...", "Ellipsis", "True", "False", "not True", "-True",
+    "()", "(1,)", "(0, 1j)", "(1, 'a', None)", "((1, 2j), 'a', None)", "(..., True, b'x', -1.5, 1e999)", "(-1, (-2.5, (3j,)))",
+    "[]", "[1, 2j]", "{}", "{'k': 1j}", "{1, 2}",
+]
+LITERAL_ENV = {"float": float, "math": __import__("math"), "Ellipsis": Ellipsis}
+
+
+def literal_kind(text):
+    try:
+        v = eval(text, dict(LITERAL_ENV))  # noqa: S307
+    except Exception:  # noqa: BLE001
+        return "?"
+
+    def has(v, ty):
+        if isinstance(v, (tuple, list, set)):
+            return any(has(x, ty) for x in v)
+        if isinstance(v, dict):
+            return any(has(x, ty) for x in list(v) + list(v.values()))
+        return type(v) is ty
+    inner = "+complex" if not isinstance(v, complex) and has(v, complex) else ""
+    return type(v).__name__ + inner
+
+
+def canon_value(v):
+    """repr is the comparison key (nan-safe, distinguishes 1 / True / 1.0, -0.0 / 0.0); sets are ordered."""
+    if isinstance(v, set):
+        return "set" + repr(sorted(map(repr, v)))
+    return repr(v)
+
+
+def literal_signature(rng, v, with_ann):
+    """Like render_sig, defaults drawn without replacement from LITERALS (distinct canonical values)."""
+    npo, nar, va, nko, kw, ndef, kwmask = v
+    need = ndef + bin(kwmask).count("1")
+    pool, seen = [], set()
+    for text in rng.sample(LITERALS, len(LITERALS)):
+        c = canon_value(eval(text, dict(LITERAL_ENV)))  # noqa: S307
+        if c not in seen:
+            seen.add(c)
+            pool.append(text)
+        if len(pool) == need:
+            break
+    it = iter(pool)
+    parts, k = [], 0
+    pos = [f"p{i}" for i in range(npo)] + [f"q{i}" for i in range(nar)]
+    first_def = len(pos) - ndef
+    for i, n in enumerate(pos):
+        s = n + (f": A{k}" if with_ann else "")
+        if i >= first_def:
+            s += (" = " if with_ann else "=") + next(it)
+        k += 1
+        parts.append(s)
+        if i == npo - 1:
+            parts.append("/")
+    if va:
+        parts.append("*r")
+    elif nko:
+        parts.append("*")
+    for i in range(nko):
+        s = f"k{i}" + (f": A{k}" if with_ann else "")
+        if kwmask >> i & 1:
+            s += (" = " if with_ann else "=") + next(it)
+        k += 1
+        parts.append(s)
+    if kw:
+        parts.append("**w")
+    return ", ".join(parts), pool
+
+
+def check_literal_defaults(ctx, n, use_model=True):
+    """Signatures whose defaults are literals of every constant type.  Model: the defaults are atoms 100+i (i-th default in
+    source order).  Griffe's default is identified by evaluating its text; CPython's by the default object."""
+    rng = ctx.rng
+    cases = []
+    for idx in range(n):
+        while True:
+            v = random_vector(rng, 3)
+            if v[5] or v[6]:
+                break
+        which = idx % 5
+        ann = which in (1, 2)
+        sig, pool = literal_signature(rng, v, ann and which != 4)
+        if which == 4:
+            sig, pool = literal_signature(rng, v, False)
+            src, path, cname = f"import math\nf = lambda {sig}: 0\n", ("f",), "lambda"
+        else:
+            body, path, cname = contexts(sig, which, ret=False)
+            src = "import math\n" + body
+        cases.append((v, src, path, cname, pool))
+    absargs = []
+    for v, src, path, cname, pool in cases:
+        tree = ast.parse(src)
+        if cname == "lambda":
+            a = tree.body[-1].value.args
+        else:
+            a = find_def(tree, path).args
+        order = {id(d): i for i, d in enumerate([d for d in a.defaults] + [d for d in a.kw_defaults if d is not None])}
+        arg = lambda x: [x.arg, [] if x.annotation is None else [atom(x.annotation)]]
+        absargs.append([[arg(x) for x in a.posonlyargs], [arg(x) for x in a.args], [] if a.vararg is None else [arg(a.vararg)],
+                        [arg(x) for x in a.kwonlyargs], [[] if d is None else [100 + order[id(d)]] for d in a.kw_defaults],
+                        [] if a.kwarg is None else [arg(a.kwarg)], [100 + order[id(d)] for d in a.defaults]])
+    m_params = ctx.model([["params", x] for x in absargs]) if use_model else [None] * len(cases)
+    for (v, src, path, cname, pool), mp in zip(cases, m_params):
+        canon = {canon_value(eval(tx, dict(LITERAL_ENV))): 100 + i for i, tx in enumerate(pool)}  # noqa: S307
+        if use_model:
+            ctx.case({"literal_defaults": pool, "context": cname, "source": src}, True)
+            ctx.observe("literal_context", cname)
+            for tx in pool:
+                ctx.observe("literal_kind", literal_kind(tx))
+        else:
+            ctx.evaluations += 1
+        try:
+            mod = __import__("griffe").visit("m", filepath=None, code=src)
+            obj = mod
+            for nm in path:
+                obj = obj.members[nm]
+            params = obj.value.parameters if cname == "lambda" else obj.parameters
+            got = []
+            for p in params:
+                annv = [] if getattr(p, "annotation", None) is None else [int(str(p.annotation)[1:])]
+                kind = KIND_NAMES[p.kind.name]
+                if p.default is None:
+                    d = []
+                elif kind in ("VP", "VK"):
+                    d = [1, str(p.default)]
+                else:
+                    try:
+                        d = [0, canon.get(canon_value(eval(str(p.default), dict(LITERAL_ENV))), -1)]  # noqa: S307
+                    except Exception:  # noqa: BLE001
+                        d = [0, -2]
+                required = p.required if hasattr(p, "required") else p.default is None
+                got.append([p.name, annv, kind, d, 1 if required else 0])
+            impl = ["ok", got]
+        except Exception as e:  # noqa: BLE001
+            impl = ["err", type(e).__name__]
+        ns = exec_ns(src)
+        orc = []
+        for p in inspect.signature(ns["f"] if path == ("f",) else getattr(ns[path[0]], path[1])).parameters.values():
+            e = enc_inspect_param(p) if p.default is inspect.Parameter.empty or INSPECT_KINDS[p.kind] in ("VP", "VK") else None
+            if e is None:
+                annv = [] if p.annotation is inspect.Parameter.empty else [int(p.annotation.__name__[1:])]
+                e = [p.name, annv, INSPECT_KINDS[p.kind], [0, canon.get(canon_value(p.default), -3)], 0]
+            orc.append(e)
+        if use_model and mp != impl:
+            ctx.tie_failure("correspondence", "get_parameters(model) vs griffe.visit with literal defaults", {"model": mp, "impl": impl}, {"source": src})
+        if impl != ["ok", orc]:
+            ctx.property_failure({"source": src, "path": list(path), "defaults": pool}, {"griffe": impl, "cpython": orc})
+            if not use_model:
+                return True
+        ctx.count("literal_default_cases")
     return False
 
 
@@ -1221,6 +1384,7 @@ def explore(ctx):
         vecs = list(vectors(3))
         ctx.exhaustive = True
     check_signatures(ctx, vecs, "exhaustive-small")
+    check_literal_defaults(ctx, ctx.budget(600, 6000))
     check_malformed_arguments(ctx)
     check_bodies(ctx, ctx.budget(700, 8000), ctx.budget(700, 8000), ctx.budget(150, 1500))
     # after the bodies (which contain decorated coroutines, properties, ...): state must not leak between definitions
@@ -1245,6 +1409,8 @@ def search(ctx):
     if check_corpus(ctx, use_model=False):
         return
     if check_signatures(ctx, list(vectors(3)), "search", use_model=False):
+        return
+    if check_literal_defaults(ctx, 3000, use_model=False):
         return
     if check_bodies(ctx, 2000, 3000, 0, use_model=False):
         return
